@@ -389,10 +389,12 @@ where
         });
     }
 
-    // 2. generated search
+    // 2. generated search (skipped when the regression tier already failed: the verdict is
+    // a violation either way, and shrinking a second, generated failure only costs time)
+    let regression_failed = !failures.lock().unwrap().is_empty();
     let strategy = Arc::new(spec.strategy.clone());
     std::thread::scope(|s| {
-        for w in 0..workers {
+        for w in 0..(if regression_failed { 0 } else { workers }) {
             let strategy = strategy.clone();
             let shared = &shared;
             let failures = &failures;
